@@ -396,10 +396,35 @@ def c14_rust(ctx):
     c14_any_separator(ctx, F)
     c14_prefer(ctx, F)
     c14_group_transitions(ctx, F)
+    c14_escape_rewrite(ctx, F)
     fn = find_fn(ctx, F, "build_tables::identify_keywords", "G3")
     if fn:
         empty = [pt for pt, c, d in calls_named(fn, "TokenSet::new")]
         text_gate(ctx, "G3", fn, empty, [("no word token ⇒ no keywords", [(("is_none",), True)])], accept_desc="returning the empty keyword set")
+
+
+def c14_escape_rewrite(ctx, F):
+    """C14.X1: the token's regular expression reaches the regex parser unmangled.  A substring
+    replacement whose needle is an escape sequence (`\\w`, `\\s`, …) cannot tell the escape `\\w` from
+    the two characters `\\` `w` that end the escaped backslash of `\\\\w`; rewriting pattern text that way
+    before it is parsed makes the lexer implement a different regular expression than the token's.
+    Every function of the token expansion that hands text to `pattern::parse` is searched for
+    `str::replace`/`replacen` calls with a constant needle that begins with a backslash."""
+    fns = [f for f in F.fn_list if "expand_tokens::" in f.name and f.entry is not None and calls_named(f, "pattern::parse")]
+    ctx.floor("functions handing pattern text to the regex parser", len(fns), 1)
+    for fn in fns:
+        short = fn.name.split("::")[-1]
+        hits = []
+        for pt, c, d in calls_named(fn, "str>::replace"):
+            a = c.get("a") or []
+            if len(a) >= 2 and strip(a[1]).get("k") == "str" and str(strip(a[1]).get("v", "")).startswith("\\"):
+                hits.append((pt, strip(a[1])["v"], c))
+        if not hits:
+            ctx.ok("X1", "%s:pattern-text-not-rewritten" % short, "the pattern text reaches pattern::parse without an escape-unaware textual rewrite")
+        for pt, needle, c in hits:
+            ctx.bad("X1", "%s:escape-unaware-rewrite:%s" % (short, needle),
+                    "%s rewrites the pattern text with str::replace(%r, …) before parsing it: an escaped backslash followed by `%s` (regex `\\%s`) is mangled "
+                    "(line %s)" % (short, needle, needle[1:], needle, (c.get("loc") or {}).get("l")))
 
 
 def c14_prefer(ctx, F):
